@@ -32,6 +32,7 @@ Case grammar (one line, id added by vcheck):
           character, ~ = keep) | next | last | del | add <n> | post <hex> | bin
           | clr (mpt_path_invalidate / path::clear_data; "clrx": clear_data as long as it only cuts the array)
           | cp (copy construction) | asg (assignment to itself and into another path) | fork (the original stays alive)
+      a kind P case ends with mpt_path_fini; last token fin:ok (storage of the path's own released exactly once) | fin:leak
   T                                     config::pointer_traits()
   M <op>...                             mpt_meta_set on ONE metatype reference (meta_set.c: every branch)
       op: s <hex> | v <hex> (text as string / vector of char) | i (an integer) | 0 (val == NULL)
@@ -81,6 +82,37 @@ PATCHED_CLEAR_DATA_SHARED = True
 #       skipped); once True EVERY store case of kinds G, H, R, X (generated and corpus) reads every observation path
 #       that way too.  Replay: docs/C10_get_convertable.replay.json
 PATCHED_GET_CONVERTABLE = True
+
+# A fourth defect, found by driving mpt_path_add on a path WITHOUT array (a path that mpt_path_set laid over the
+# caller's string: the next `add` bytes of that string become the next element): mptcore/config/path_add.c copies
+# path and element into a new array and lets path->base point into it, but does not set MPT_PATHFLAG(HasArray).
+# mpt_path_fini never releases that array, and a second mpt_path_add treats it as a plain string again: it takes the
+# next element from the bytes BEHIND the used part of the array (uninitialised heap) instead of refusing.
+#   PATCHED_PATH_ADD_HASARRAY: docs/C10_path_add_hasarray.diff (one line: the flag is set where path->base is).
+#       While False no history adds an element to a path that lies in a string (needs_hasarray: generated cases and
+#       corpus lines are left out); once True: gen_stradd (500 histories), `add 0` in random string histories, the
+#       directed cases of exhaustive_paths.  Replay: docs/C10_replay_path_add_hasarray.json
+PATCHED_PATH_ADD_HASARRAY = True 
+
+
+def needs_hasarray(case):
+    """a P / Q history in which mpt_path_add runs on a path that lies in the caller's string"""
+    t = case.split()
+    if not t or t[0] not in ("P", "Q"):
+        return False
+    instr = False
+    i = 3
+    while i < len(t):
+        op = t[i]
+        n = ARITY.get(op, 0)
+        if op in ("set", "sets"):
+            instr = t[i + 1] != "~"
+        elif op == "post" and t[i + 1] != "-":
+            instr = False
+        elif op == "add" and instr:
+            return True
+        i += n + 1
+    return False
 
 
 def hx(bs):
@@ -146,8 +178,11 @@ class C10(DiffProperty):
             "histories over value lengths 0,1,5,248..251,254..256,300,1000, 128k-64 +-1 up to 65600 and 65534..65536 (string / vector / "
             "array; assign, no value, overwrite, refused integer, through a view) and element names of 65534 / 65535 / 65536 bytes; every "
             "history of length <= 3 over 13 mpt_meta_set operations (kind M) + 300 random ones; random path build/walk histories in separator and binary mode with element lengths "
-            "0,1,127,128,254..257 (now also: last / del behind consumed elements with post data, add 0 on a path that lies in the "
-            "caller's string, invalidate / last / del / add on a path without storage); one 15-node list x every start x positions -4..4 x 22 keys "
+            "0,1,127,128,254..257 (now also: last / del behind consumed elements with post data, - once PATCHED_PATH_ADD_HASARRAY is set - "
+            "500 histories of mpt_path_add on a path that lies in the caller's string (set with assign character or a length that leaves bytes "
+            "behind the path; next / last / del / clear / copy before the add; add n for n <= the bytes behind, also with a separator inside; "
+            "then repeated adds, post + add, del, walks) and add 0 in random string histories; every kind P case ends with mpt_path_fini under a "
+            "second reference held by the harness: the path's own storage must be released exactly once, invalidate / last / del / add on a path without storage); one 15-node list x every start x positions -4..4 x 22 keys "
             "(exhaustive) + 400 random lists (kind N). A case is non-trivial when it has a removal, a long element/value, an empty element, a view, one of "
             "the caller-level operations or a path operation beyond set; distinct = distinct case text")
     modelled = ("mptcore/config/{path_set,path_next,path_last,path_add,path_del,node_query,node_assign,config_global,config_set,config_get,"
@@ -182,7 +217,9 @@ class C10(DiffProperty):
                "harness/c10_root.cpp drives config::root through the virtual config interface (kind R) and through config::set / del / get<T> / "
                "environ (kind X), the process-global store through config::global + the same wrappers (kind H: the tree is read back through the "
                "collection of a query handler, link fields are not visible there) and mpt::path through its methods (kind Q: the original of a "
-               "forked path is re-read after every operation on the copy); the UBSan vptr check is suppressed "
+               "forked path is re-read after every operation on the copy; kind P in harness/c10_store.c: at the end the harness takes a second "
+               "reference on storage the path does not point into the caller's string for, calls mpt_path_fini and reports whether the array is "
+               "still shared); the UBSan vptr check is suppressed "
                "there (harness/c10_ubsan.supp) because mpt++ deliberately views C-allocated buffers as C++ objects; config::root is destroyed "
                "at the end of every R / X case (ASan)",
                "text of a value is read through the vector-of-char conversion (the buffer metatype for long text offers no 's' conversion)",
@@ -197,7 +234,11 @@ class C10(DiffProperty):
                "a path); text is read from library-made values through their conversions, from harness-made ones from their own store",
                "asked for the value itself (TypeConvertablePtr) the harnesses compare the pointer handed out with the one the query "
                "handler received and read the text from that object"]
-    level_text = ("proof: Coq theorems (coq/C10/Properties.v, 43, all closed under the global context) "
+    level_text = ("proof: Coq theorems (coq/C10/Properties.v, 44, all closed under the global context) "
+                  "C10_path_add_from_string (mpt_path_add on ANY well-formed non-empty path that lies in the caller's string - no array, any "
+                  "offset -, n bytes of that string behind it without separator: the elements afterwards are the elements before ++ [those n "
+                  "bytes], the path owns its storage (HasArray; model as patched by docs/C10_path_add_hasarray.diff), nothing is behind it and "
+                  "a further element of m > 0 bytes is refused with BadValue), "
                   "C10_path_last_element / C10_path_del_element (separator mode, ANY well-formed path - any offset, with or without array "
                   "and post data: mpt_path_last leaves exactly the last element, read from inside the storage, end of the path unmoved; "
                   "mpt_path_del removes exactly the last element and the post data and returns its length), "
@@ -282,13 +323,17 @@ class C10(DiffProperty):
                   "config::pointer_traits / type_properties<config *>. mpt_node_query over lists with foreign identifiers (kind N, q) is compared with the "
                   "specification squery_l (first node that carries exactly that name, at every level) by the correspondence run; proved only "
                   "for forests of names (C10_node_query_is_locate_loop + the store theorems). Coverage of the files brought in by round 6 "
-                  "(own quick tier, gcov): node/node_locate.c 100 % of 52 lines (was 36.5 %), path_add.c 100 % of 43 (the branch without "
-                  "array: add 0 on a path in the caller's string), path_last.c 95 % (line 29) and path_del.c 96 % (lines 32, 57): the three "
+                  "(own quick tier, gcov): node/node_locate.c 100 % of 52 lines (was 36.5 %), path_add.c 100 % of 43 with PATCHED_PATH_ADD_HASARRAY on (93 % while off: the branch "
+                  "without array is kept out), path_last.c 95 % (line 29) and path_del.c 96 % (lines 32, 57): the three "
                   "lines left are the consistency checks of the binary layout / array length, reachable only with a path whose flags or "
-                  "array were changed behind the library's back. Finding, not patched (docs/notes_C10.md, round 6): mpt_path_add on a path "
-                  "WITHOUT array (set from a string) copies the path into a new array but does not set HasArray - the array is never "
-                  "released and a second add takes the next element from uninitialised bytes of that array; no caller in the library uses "
-                  "that branch with add > 0, the generator uses add 0 only. Observation (not C10's subject, not driven): "
+                  "array were changed behind the library's back. OPEN in /repo (switch PATCHED_PATH_ADD_HASARRAY in props/c10.py, off): mpt_path_add on a "
+                  "path WITHOUT array (laid over the caller's string by mpt_path_set) copies path and element into a new array but does not set "
+                  "HasArray - mpt_path_fini never releases the array and a second add takes its element from uninitialised bytes behind the "
+                  "used part of that array instead of answering BadValue. Patch docs/C10_path_add_hasarray.diff (one statement next to "
+                  "path->base = data, what mpt_path_addchar does in the same situation; ctest 29/29; ./check C10 green on the patched tree with "
+                  "the switch on, seeds 1-3), replay docs/C10_replay_path_add_hasarray.json = VIOLATION on /repo; model (path_add: parr := true), "
+                  "abstract path (astr: the caller's bytes behind a string path) and C10_path_add_from_string describe the patched function; "
+                  "until the switch is on no history adds to a string path and path_add.c lines 40-42 are not executed by this check. Observation (not C10's subject, not driven): "
                   "config::get(path, metatype *&) fails on a config::root value of 255+ bytes - io::buffer::metatype::convert names its "
                   "own class where ::mpt::metatype is meant (injected class name), so TypeMetaPtr is not answered. Not driven: "
                   "type_properties<config_item>::id / traits of mpt++/config.cpp (declared inline in config.h, defined out of line and never "
@@ -940,7 +985,7 @@ class C10(DiffProperty):
             for _ in range(rng.choice([1, 2, 4, 6])):
                 # "add 0" on a path that lies in the caller's string: the branch of mpt_path_add without array
                 # (path_add.c: pre = len + add; the path is copied into a new array, an empty element appended)
-                if rng.random() < 0.15:
+                if PATCHED_PATH_ADD_HASARRAY and rng.random() < 0.15:
                     ops += ["add", "0"]
                     continue
                 ops += [rng.choice(["next", "next", "last", "del", "cp", "asg", "clr"] + (["fork"] if PATCHED_PATH_ADD_SHARED else []))]
@@ -968,6 +1013,73 @@ class C10(DiffProperty):
                     ops += ["next"]
                 else:
                     ops += ["last"]
+        return " ".join(["P", "%02x" % sep, "%02x" % asg] + ops)
+
+    def gen_stradd(self, rng):
+        """mpt_path_add on a path that lies in the caller's string: set (string or explicit length, with assign
+        character or cut short so that bytes are left behind the path), optionally next / last / del (the deleted
+        element and its end byte are behind the path again), then add n with n <= the bytes behind - also with a
+        separator inside (refused) -, then anything: repeated adds (refused until post data is there, add 0 accepted),
+        post + add, next, last, del, clear, copies.  The abstract path is tracked here only to keep n inside the string."""
+        sep = rng.choice(SEPS)
+        asg = rng.choice([0x3d, 0x3d, 0])
+        alpha = bytes(c for c in b"abcxyz" if c not in (sep, asg))
+        def word(maxn=3):
+            n = rng.choice([0, 1, 1, 2, 3, 40, 254, 255, 256] if rng.random() < 0.15 else list(range(maxn + 1)))
+            return bytes(rng.choice(alpha) for _ in range(n)) if n < 9 else bytes([rng.choice(alpha)]) * n
+        el = [word() for _ in range(rng.choice([1, 2, 2, 3]))]
+        head = bytes([sep]).join(el)
+        tail = b"".join(rng.choice([word(4), word(4), bytes([sep]), bytes([asg]) if asg else b"q"]) for _ in range(rng.choice([1, 2, 3, 5])))
+        if asg and rng.random() < 0.7:
+            s, ln = head + bytes([asg]) + tail, -1
+            term = asg
+        else:
+            s = head + rng.choice(alpha[:1] + bytes([sep])).to_bytes(1, "little") + tail
+            ln = len(head)
+            term = s[ln]
+            if asg and asg in head:
+                ln = -1
+        if not s:
+            s, ln, term = b"a", 0, 0x61
+        # the abstract path while it lies in the string (mirror of astep)
+        mem = s + b"\0"
+        data = (s.split(b"\0")[0] + b"\0") if ln < 0 else mem[:ln]
+        body = data.split(bytes([asg]))[0] if asg in data else data
+        if ln < 0:
+            body = body.split(b"\0")[0]
+        elems = body.split(bytes([sep]))
+        behind = mem[len(body) + 1:]
+        term = mem[len(body)] if len(body) < len(mem) else 0
+        ops = ["set", hx(s), str(ln)]
+        instr = True
+        for _ in range(rng.choice([2, 3, 5, 8])):
+            r = rng.random()
+            if instr:
+                if r < 0.12 and elems:
+                    ops += ["next"]; elems = elems[1:]
+                elif r < 0.18 and elems:
+                    ops += ["last"]; elems = elems[-1:]
+                elif r < 0.32 and elems:
+                    ops += ["del"]; e = elems.pop(); behind = e + bytes([term]) + behind; term = sep
+                elif r < 0.38:
+                    ops += [rng.choice(["clr", "cp", "asg", "fork"])]
+                elif r < 0.44:
+                    d = word(3) + b"r"
+                    ops += ["post", hx(d)]; instr = False
+                else:
+                    k = rng.choice([0, 1, 1, 2, 3, len(behind), max(0, len(behind) - 1), 255, 256])
+                    k = min(k, len(behind))
+                    ops += ["add", str(k)]
+                    if sep not in behind[:k]:
+                        instr = False
+            else:
+                if r < 0.35:
+                    ops += ["add", str(rng.choice([0, 0, 1, 1, 2, 3]))]
+                elif r < 0.55:
+                    e = word(3)
+                    ops += ["post", hx(e + rng.choice([b"", b"r", b"rs"]) or b"r"), "add", str(len(e))]
+                else:
+                    ops += [rng.choice(["next", "last", "del", "del", "clr", "cp", "asg", "fork"])]
         return " ".join(["P", "%02x" % sep, "%02x" % asg] + ops)
 
     def gen_forkcase(self, rng):
@@ -1015,6 +1127,12 @@ class C10(DiffProperty):
         cases += self.gen_namecases()
         cases += self.exhaustive_metaset(depth)
         cases += self.exhaustive_locate()
+        if PATCHED_PATH_ADD_HASARRAY:
+            for i in range(500 if tier == "quick" else 10000):
+                c = self.gen_stradd(rng)
+                cases.append("Q" + c[1:] if i % 3 == 2 else c)
+        else:
+            cases = [c for c in cases if not needs_hasarray(c)]
         for i in range(400 if tier == "quick" else 8000):
             cases.append(self.gen_locate(rng))
         for i in range(300 if tier == "quick" else 6000):
@@ -1030,6 +1148,8 @@ class C10(DiffProperty):
 
     def corpus(self):
         cs = DiffProperty.corpus(self)
+        if not PATCHED_PATH_ADD_HASARRAY:
+            cs = [c for c in cs if not needs_hasarray(c)]
         if PATCHED_GET_CONVERTABLE:
             return [self.conv_form(c) for c in cs]
         return [c for c in cs if c.split()[0] not in ("Gc", "Hc", "Rc", "Xc")]
